@@ -139,6 +139,18 @@ TUndo ==
      ELSE IF Ev.res # "ok" THEN Broken("undo failed", Ev.res)
      ELSE Accept(UndoMove(st, m), "state after undo differs from the state before the move", "restored")
 
+\* a copy of the board (Board::clone -- what every root task of the search and the position counter
+\* work on) is the board: Ev.obs is the COPY's projection; the model does not move
+TClone == Ev.ev = "Clone" /\ mode = "ok" /\ Accept(st, "a copy of the board differs from the board", "none")
+\* ... including its history: taking the last move back on the copy gives the state before that move
+TCloneUndo ==
+  /\ Ev.ev = "CloneUndo" /\ mode = "ok"
+  /\ IF Len(st.hmS) < 2 \/ Len(st.epS) < 2 \/ Len(st.crS) < 2 THEN OutOfScope("undo without a matching apply")
+     ELSE IF "failed" \in DOMAIN Ev THEN Bad("taking the last move back on a copy of the board failed", {"failed"}, Ev.m) /\ Keep /\ mode' = "ok" /\ Advance
+     ELSE \E s \in {UndoMove(ToggleTurn(IF Ev.reg THEN Uncount(st) ELSE st), MvOf(Ev.m))} : \E d \in {DiffSet(s, "none") \ {"history"}} :
+          /\ (IF d = {} THEN TRUE ELSE Bad("taking the last move back on a copy of the board does not give the state before the move", d, Detail(s)))
+          /\ Keep /\ mode' = "ok" /\ Advance
+
 TToggle == Ev.ev = "Toggle" /\ mode = "ok" /\ Accept(ToggleTurn(st), "state after toggle_turn differs", "stable")
 
 TCount ==
@@ -410,7 +422,7 @@ TGEnding ==
 
 Init == l = 2 /\ st = EmptyEngine /\ keyS = << >> /\ mode = "skip"
 Next == l <= NRec /\ (TReset \/ TSkipped \/ TApply \/ TUndo \/ TToggle \/ TCount \/ TUncount \/ TQuery \/ TEnding
-                       \/ TGReset \/ TGToggle \/ TCoordBatch \/ TCoord \/ TLabelBatch \/ TLabel \/ TEngineMove \/ TGEnding \/ TBookEdges \/ TSearch \/ TCli \/ TCliReset \/ TWatch \/ TWatchEnd \/ TBridge \/ TBridgeEnd
+                       \/ TGReset \/ TGToggle \/ TCoordBatch \/ TCoord \/ TLabelBatch \/ TLabel \/ TEngineMove \/ TGEnding \/ TBookEdges \/ TSearch \/ TCli \/ TCliReset \/ TWatch \/ TWatchEnd \/ TBridge \/ TBridgeEnd \/ TClone \/ TCloneUndo
                        \/ TEReset \/ TPut \/ TRemove \/ TLoseRights \/ TPushEp \/ TPopEp)
 Spec == Init /\ [][Next]_vars
 
